@@ -245,6 +245,87 @@ func (c *ctx) fail(key, desc, op string) {
 	c.rep.Fail(key, desc, []string{op})
 }
 
+// failsWith re-runs one op on a scratch report and says whether the oracle
+// failure `key` shows again.
+func failsWith(op, key string) bool {
+	if strings.HasPrefix(op, "probe ") {
+		return false // child-process probes are not shrunk
+	}
+	sc := &ctx{rep: hx.NewReport("C19", &hx.Flags{}), j: hx.NewJournal(""), slowest: map[string]float64{}}
+	sc.runOp(op)
+	for _, f := range sc.rep.OracleFailures {
+		if f.Key == key {
+			return true
+		}
+	}
+	return false
+}
+
+// shrink removes nodes (delta debugging: halves, quarters, ..., single nodes),
+// then single edges, while the same oracle failure shows.
+func shrink(op, key string, limit time.Duration) string {
+	ws := strings.Fields(op)
+	g, ok := parseGraph(ws[1:])
+	if !ok || len(g.keys) <= 3 {
+		return op
+	}
+	t0 := time.Now()
+	without := func(h *graph, drop map[int]bool) *graph {
+		r := &graph{adj: map[int][]int{}}
+		for _, k := range h.keys {
+			if drop[k] {
+				continue
+			}
+			r.keys = append(r.keys, k)
+			var outs []int
+			for _, v := range h.adj[k] {
+				if !drop[v] {
+					outs = append(outs, v)
+				}
+			}
+			r.adj[k] = outs
+		}
+		return r
+	}
+	for chunk := (len(g.keys) + 1) / 2; chunk >= 1; chunk /= 2 {
+		for i := 0; i < len(g.keys); {
+			if time.Since(t0) > limit {
+				return ws[0] + " " + g.words()
+			}
+			drop := map[int]bool{}
+			for j := i; j < i+chunk && j < len(g.keys); j++ {
+				drop[g.keys[j]] = true
+			}
+			h := without(g, drop)
+			if len(h.keys) > 0 && failsWith(ws[0]+" "+h.words(), key) {
+				g = h
+			} else {
+				i += chunk
+			}
+		}
+	}
+	for _, k := range g.keys {
+		for j := 0; j < len(g.adj[k]); {
+			if time.Since(t0) > limit {
+				return ws[0] + " " + g.words()
+			}
+			old := g.adj[k]
+			g.adj[k] = append(append([]int{}, old[:j]...), old[j+1:]...)
+			if !failsWith(ws[0]+" "+g.words(), key) {
+				g.adj[k] = old
+				j++
+			}
+		}
+	}
+	return ws[0] + " " + g.words()
+}
+
+func (c *ctx) failed() bool {
+	c.mu.Lock()
+	defer c.mu.Unlock()
+	return len(c.rep.OracleFailures) > 0
+}
+
 func (c *ctx) count(k string) {
 	c.mu.Lock()
 	c.rep.Count(k)
@@ -360,11 +441,15 @@ func guardOp(c *ctx, line string, f func() string) string {
 	return out
 }
 
-func (c *ctx) opCheck(line string, g *graph) result {
+func (c *ctx) opCheck(line string, g *graph) result { return c.opCheckN(line, g, 3) }
+
+// opCheckN repeats CheckDAG on cyclic graphs: different map orders may report
+// different cycles.
+func (c *ctx) opCheckN(line string, g *graph, cyclicReps int) result {
 	t := analyse(g, false)
 	reps := 1
 	if !t.acyclic && t.closed {
-		reps = 3 // different map orders may report different cycles
+		reps = cyclicReps
 	}
 	var res result
 	for r := 0; r < reps; r++ {
@@ -1129,15 +1214,51 @@ func main() {
 			c.batch(f.Driver, ops, true)
 		})
 		mark("dags-5")
+		if thorough && c.failed() {
+			rep.Note("oracle failures already found in the exhaustive small scopes; the 5-node sweep and the enlarged random run are skipped")
+			thorough = false
+		}
 		if thorough {
-			parallel(1<<25, 1<<15, func(lo, hi int) {
-				ops := make([]string, 0, hi-lo)
+			// every graph: implementation against the textbook oracle; every 16th
+			// graph (phase chosen by the seed) also against the model.  Chunks not
+			// started within the budget are skipped and reported.
+			budget := 8 * time.Minute
+			tStart := time.Now()
+			phase := int(f.Seed % 16)
+			var swMu sync.Mutex
+			covered, skipped := 0, 0
+			parallel(1<<25, 1<<14, func(lo, hi int) {
+				if time.Since(tStart) > budget {
+					swMu.Lock()
+					skipped += hi - lo
+					swMu.Unlock()
+					return
+				}
+				var ops []string
 				for bits := lo; bits < hi; bits++ {
-					ops = append(ops, "check "+fromMatrix(5, uint64(bits), 0).words())
+					g := fromMatrix(5, uint64(bits), 0)
+					line := "check " + g.words()
+					if bits%16 == phase {
+						ops = append(ops, line)
+					} else {
+						c.opCheckN(line, g, 1)
+					}
 				}
 				c.batch(f.Driver, ops, false)
+				swMu.Lock()
+				covered += hi - lo
+				swMu.Unlock()
+				c.mu.Lock()
+				c.rep.Evaluations += hi - lo - len(ops)
+				c.mu.Unlock()
 			})
-			rep.Count("exhaustive-n5-all-digraphs")
+			rep.Distribution["exhaustive_n5_digraphs_checked"] = covered
+			rep.Distribution["exhaustive_n5_digraphs_with_model"] = covered / 16
+			if skipped > 0 {
+				rep.Note("5-node sweep: %d of %d digraphs not reached within %v (machine load); the rest was checked", skipped, 1<<25, budget)
+			} else {
+				rep.Count("exhaustive-n5-all-digraphs")
+			}
 		}
 	}
 
@@ -1151,7 +1272,7 @@ func main() {
 	add := func(class string, g *graph) { jobs = append(jobs, job{class, g}) }
 	scale := 1
 	if thorough {
-		scale = 12
+		scale = 6
 	}
 	for i := 0; i < 1500*scale; i++ { // small DAGs, all densities
 		add("dag-small", ge.randomDAG(6+ge.r.Intn(7), 100+ge.r.Intn(800)))
@@ -1226,8 +1347,20 @@ func main() {
 		}
 	}
 	sort.SliceStable(large, func(a, b int) bool { return len(large[a].g.keys) > len(large[b].g.keys) })
+	randBudget := 60 * time.Second
+	if thorough {
+		randBudget = 10 * time.Minute
+	}
+	tRand := time.Now()
+	skippedJobs := 0
 	runJobs := func(js []job, chunk int) {
 		parallel(len(js), chunk, func(lo, hi int) {
+			if time.Since(tRand) > randBudget {
+				c.mu.Lock()
+				skippedJobs += hi - lo
+				c.mu.Unlock()
+				return
+			}
 			var ops []string
 			for _, jb := range js[lo:hi] {
 				ops = append(ops, opsFor(jb.g, analyse(jb.g, false), true)...)
@@ -1235,8 +1368,11 @@ func main() {
 			c.batch(f.Driver, ops, true)
 		})
 	}
-	runJobs(large, 1)
 	runJobs(small, 64)
+	runJobs(large, 1)
+	if skippedJobs > 0 {
+		rep.Note("%d of %d random graphs not reached within %v (machine load)", skippedJobs, len(jobs), randBudget)
+	}
 
 	mark("random")
 	// 5. termination of the cycle search on graphs whose shortest cycle is long
@@ -1246,6 +1382,14 @@ func main() {
 		rep.Count("termination-probe")
 	}
 	mark("termination-probe")
+	// minimise the witnesses of oracle failures found on larger graphs
+	for i := range rep.OracleFailures {
+		f := &rep.OracleFailures[i]
+		if len(f.Ops) == 1 && len(strings.Fields(f.Ops[0])) > 6 {
+			f.Ops[0] = shrink(f.Ops[0], f.Key, 8*time.Second)
+		}
+	}
+	mark("shrink")
 	c.j.Clear()
 	for i := 0; i < len(jobs) && i < 2000; i += 211 {
 		op := "check " + jobs[i].g.words()
